@@ -167,3 +167,29 @@ class RowanMod(roundtrip.RTMod):
                         out.append((OK, ("abs", "siter", tuple(acc), 0), s2))
             return out
         return go(0, [], st)
+
+
+def display_writes_text(F, key):
+    """interpret a Display::fmt impl of a syntax-node wrapper with `text()` replaced by a raw atom (arbitrary text, may
+    begin / end with blanks or line breaks): the formatter must receive exactly that text.  Returns (ok, detail)."""
+    import hirai, symstr, roundtrip
+    f = F.fn(key)
+    if f is None:
+        return False, "Display impl not found"
+    RAW = symstr.atom("node-text", "raw")
+
+    class M(roundtrip.RTMod):
+        def intrinsic(self, I, callee, args, st, n):
+            if callee.endswith("SyntaxNode::<L>::text"):
+                return [(hirai.OK, RAW, st)]
+            return super().intrinsic(I, callee, args, st, n)
+    mod = M(F)
+    I = hirai.Interp(F, mod)
+    st = hirai.State(depth=0).setroot(("T", "self"), ("enum", key[1:].split(" as ")[0], (("abs", "node"),))).setroot(("T", "fmt"), ("abs", "out", ()))
+    res = I.inline(f, [("ref", (("T", "self"),)), ("ref", (("T", "fmt"),))], st)
+    outs = []
+    for ctl, v, s in res:
+        buf = s.store.get(("T", "fmt"))
+        outs.append((ctl, symstr.show(("sstr", buf[2])) if buf and buf[2] is not None else "?"))
+    ok = outs == [(hirai.OK, symstr.show(RAW))]
+    return ok, "writes %s, expected exactly the node's text" % outs
